@@ -67,6 +67,10 @@ CHECKS = {
    technique='exhaustive enumeration of a configuration grid on the unmodified Geant4 extension sources compiled against a minimal Geant4 stand-in; differential against the core API',
    text='The unmodified primary_generator_action.cc and unique_point_vertex_generator.cc are compiled against stand-in Geant4 headers and driven over ~4000 (quick) configurations (categories, valid/invalid/unpublished nuclides, seeds, modes, levels, windows, MDL, three vertex-generator situations); refusal is compared with the core tools (driver rules + decay0_generator::initialize run in-process) and every handed-over primary with the particle of an identically seeded core generator (species, momentum in MeV, time in seconds, vertex).',
    note='Trusted: the stand-in reproduces G4ParticleGun::SetParticleMomentum semantics and CLHEP unit values; real Geant4 is not available offline.'),
+ 'C15': dict(level='fault_enumeration', ref='DESIGN.md §2 C15', engine='c15',
+   technique='bounded exhaustive mutation of small seed files (all truncations, all token x adversarial-alphabet replacements, line deletions/duplications, argv prefixes), each mutant loaded in a forked child of the sanitizer build',
+   text='Every byte-prefix truncation, every token replaced by each of 18 adversarial strings, every token duplicated and every line deleted/duplicated/extended of a two-event file, a gA p.d.f. table, its encoder-written c.d.f. table, the three catalogue lists and two argument vectors (~5000 mutants quick; pairs of replacements thorough) is fed to the real loader in a forked child of the ASan+UBSan+_GLIBCXX_ASSERTIONS build with a time limit and a single-allocation cap; allowed outcomes: exception, or a load satisfying the loader\'s validity predicate.',
+   note='Trusted: GCC sanitizers, libstdc++ assertions; validity predicates stated in the evidence.'),
 }
 NOT_YET = {
 }
@@ -114,6 +118,7 @@ def main():
             {'name': 'c12', 'path': 'checks/c12.cc', 'serves_properties': ['C12'], 'kind_free_text': 'cooperative scheduler (engine/sched.hpp) + preemption-bounded explorer over link-time interposed sync points; checks/c12_tsan.cc race pass'},
             {'name': 'c13', 'path': 'checks/c13.py', 'serves_properties': ['C13'], 'kind_free_text': 'CLI enumerator, API-equivalent recomputation (checks/c13api.cc), kill-point shim (engine/killpt/kp.c)'},
             {'name': 'c17', 'path': 'checks/c17.cc', 'serves_properties': ['C17'], 'kind_free_text': 'Geant4 stand-in (engine/g4stub) + configuration grid differential'},
+            {'name': 'c15', 'path': 'checks/c15.cc', 'serves_properties': ['C15'], 'kind_free_text': 'bounded exhaustive mutator (engine/mutate.py) + per-mutant forked loader runs on the sanitizer build'},
             {'name': 'd0ref', 'path': 'tools/f2cxx.py', 'serves_properties': ['C01', 'C02', 'C06'], 'kind_free_text': 'reference model generated from resources/code/decay0/decay0_2020-04-20.for'},
         ],
         'checks': checks,
